@@ -7,6 +7,7 @@ use vstd::prelude::*;
 use vstd::std_specs::iter::IteratorSpec;
 use std::collections::BTreeMap;
 use std::collections::btree_map::Entry;
+extern crate case;
 
 verus! {
 
@@ -190,6 +191,10 @@ pub broadcast axiom fn axiom_string_obeys_cmp()
 pub uninterp spec fn upper(s: Seq<char>) -> Seq<char>;
 pub assume_specification[ str::to_uppercase ](s: &str) -> (r: String)
     ensures r@ == upper(s@);
+// case::CaseExt::to_snake (the `case` crate): likewise an uninterpreted function of the text
+pub uninterp spec fn snake(s: Seq<char>) -> Seq<char>;
+pub assume_specification[ <str as case::CaseExt>::to_snake ](s: &str) -> (r: String)
+    ensures r@ == snake(s@);
 
 // ---------------- naga layout helpers (naga's numbers are taken as the WGSL ones: DESIGN 4.7) ----------------
 #[verifier::external_type_specification] #[verifier::external_body] pub struct ExGlobalCtx<'a>(naga::proc::GlobalCtx<'a>);
@@ -266,6 +271,24 @@ pub assume_specification[ <naga::proc::Layouter as core::ops::Index<naga::Handle
     ensures layouter_module(l) is Some ==> r.size == wgsl_size(layouter_module(l)->0, handle_index(h));
 pub broadcast axiom fn axiom_layouter_index_req(l: naga::proc::Layouter, h: naga::Handle<naga::Type>)
     ensures #[trigger] vstd::std_specs::core::IndexSpec::index_req(&l, &h) == (layouter_module(&l) is Some && 0 <= handle_index(h) < uarena_seq(&layouter_module(&l)->0.types).len());
+
+// TypeLayout::to_stride (naga 24 proc/layouter.rs): the size rounded up to the alignment - an uninterpreted function of the
+// layout, NOT the size (a struct of size 12 and alignment 16 has stride 16)
+pub uninterp spec fn layout_stride(l: naga::proc::TypeLayout) -> u32;
+pub assume_specification[ naga::proc::TypeLayout::to_stride ](l: &naga::proc::TypeLayout) -> (r: u32)
+    ensures r == layout_stride(*l);
+
+// TypeInner::scalar (transcribed from naga 24 proc/mod.rs): the component scalar of scalars, vectors AND matrices
+pub open spec fn inner_scalar(t: naga::TypeInner) -> Option<naga::Scalar> {
+    match t {
+        naga::TypeInner::Scalar(scalar) => Some(scalar),
+        naga::TypeInner::Vector { scalar, .. } => Some(scalar),
+        naga::TypeInner::Matrix { scalar, .. } => Some(scalar),
+        _ => None,
+    }
+}
+pub assume_specification[ naga::TypeInner::scalar ](t: &naga::TypeInner) -> (r: Option<naga::Scalar>)
+    ensures r == inner_scalar(*t);
 
 // the elements still held by a vec::IntoIter (a non-prophetic view; the eager iterator stand-ins state elems == remaining)
 pub uninterp spec fn elems<T>(it: &std::vec::IntoIter<T>) -> Seq<T>;
